@@ -201,7 +201,11 @@ class BkAdd(BkExpr):
     r: BkExpr
 
 
+sys.path.insert(0, os.path.dirname(os.path.dirname(os.path.abspath(__file__))))
+import wsgrammar  # noqa: E402  (a refinement OBJECT with parameters of its own -- a probability matrix -- that lives as long as the process)
+
 GRAMMARS = {
+    "wstrings": ([wsgrammar.Seq, wsgrammar.Join], wsgrammar.E),
     # a production that fails in some contexts (creation backtracks to its siblings)
     "backtrack": ([BkRef, BkLit, BkNeg, BkAdd], BkExpr),
     # production weights on TWO abstract symbols (every extraction re-normalises what is stored on the classes)
@@ -221,6 +225,7 @@ _SHARED_REPS: dict = {}
 
 
 _SHARED_GRAMMARS: dict = {}
+_MO_LOG: dict = {}
 _SHARED_SEED_PROGRAMS: dict = {}
 
 
@@ -276,6 +281,18 @@ def run_one(algo: str, rep_name: str, gname: str, seed: int, budget: int, own_tr
             log.append(s)
             return [float((len(s) * (j + 3) + j * j) % 7) for j in range(20)]
         problem = MultiObjectiveProblem([j % 2 == 0 for j in range(20)], mff)
+    if algo == "gpmo":
+        # a multi-objective problem declared with ONE bool for all its objectives (their number is only known after the first
+        # evaluation), built once by the user and handed to every run
+        from geneticengine.problems import MultiObjectiveProblem
+        _MO_LOG["log"] = log
+        if "problem" not in _MO_LOG:
+            def mo_ff(p):
+                s_ = repr(p)
+                _MO_LOG["log"].append(s_)
+                return [float(len(s_) % 11), float(s_.count("(") * 3 % 7), float(len(s_) % 5)]
+            _MO_LOG["problem"] = MultiObjectiveProblem(True, mo_ff)
+        problem = _MO_LOG["problem"]
     b = EvaluationBudget(budget)
     # a tracker supplied by the user without an evaluator (the usual way to attach recorders)
     kw = {"tracker": SingleObjectiveProgressTracker(problem, recorders=[])} if own_tracker else {}
@@ -299,6 +316,8 @@ def run_one(algo: str, rep_name: str, gname: str, seed: int, budget: int, own_tr
                 _SHARED_SEED_PROGRAMS[(gname, seed)] = [rep0.create_genotype(r0) for _ in range(5)]
             alg = GeneticProgramming(problem, b, rep, random=r, population_size=8,
                                      population_initializer=InjectInitialPopulationWrapper(_SHARED_SEED_PROGRAMS[(gname, seed)], GrowInitializer()), **kw)
+        elif algo == "gpmo":
+            alg = GeneticProgramming(problem, b, rep, random=r, population_size=8)
         elif algo == "rs":
             alg = RandomSearch(problem, b, rep, random=r, **kw)
         elif algo == "hc":
@@ -306,8 +325,9 @@ def run_one(algo: str, rep_name: str, gname: str, seed: int, budget: int, own_tr
         else:
             alg = OnePlusOne(problem, b, rep, random=r, **kw)
         best = alg.search()
-        bf = best.get_fitness(problem).fitness_components[0]
-        return {"evaluated": log, "best": repr(best.get_phenotype()), "fitness": bf}
+        f_ = best.get_fitness(problem)
+        bf = f_.fitness_components[0]
+        return {"evaluated": log, "best": repr(best.get_phenotype()), "fitness": bf, "aggregate": f_.maximizing_aggregate}
     except Exception as e:  # noqa: BLE001
         return {"evaluated": log, "error": type(e).__name__}
 
